@@ -198,6 +198,8 @@ func newWorld(t *testing.T) *W {
 	return w
 }
 
+func pendKey(c int, port, ch string) string { return string(rune('0'+c)) + "/" + port + "/" + ch }
+
 func (w *W) ctx(c int) sdk.Context { return w.ch[c].GetContext() }
 
 func (w *W) rev(c int) uint64 { return clienttypes.ParseChainID(w.ch[c].ChainID) }
@@ -334,6 +336,8 @@ func (w *W) update(c int, client string) bool {
 	k := 0
 	if client == clientIDs[1] {
 		k = 1
+	} else if client != clientIDs[0] {
+		w.t.Fatalf("update of unknown client %q", client)
 	}
 	err := w.eps[c][k].UpdateClient()
 	if err != nil && os.Getenv("HS_DEBUG") != "" {
@@ -378,17 +382,17 @@ func (w *W) exec(o *Op) bool {
 		ok := !panicked && err == nil
 		if ok {
 			ch, _ := chn.App.GetIBCKeeper().ChannelKeeper.GetChannel(chn.GetContext(), o.Port, o.Chan)
-			w.pend[o.Port+"/"+o.Chan] = chantypes.NewPacket([]byte("verif"), seq, o.Port, o.Chan, ch.Counterparty.PortId, ch.Counterparty.ChannelId, th, 0)
+			w.pend[pendKey(c, o.Port, o.Chan)] = chantypes.NewPacket([]byte("verif"), seq, o.Port, o.Chan, ch.Counterparty.PortId, ch.Counterparty.ChannelId, th, 0)
 		}
 		w.coord.CommitBlock(chn)
 		return ok
 	case "timeout":
-		pkt := w.pend[o.Port+"/"+o.Chan]
+		pkt := w.pend[pendKey(c, o.Port, o.Chan)]
 		cp := w.ch[1-c]
 		nsr, _ := cp.App.GetIBCKeeper().ChannelKeeper.GetNextSequenceRecv(cp.GetContext(), pkt.DestinationPort, pkt.DestinationChannel)
 		bz := w.queryProof(1-c, host.NextSequenceRecvKey(pkt.DestinationPort, pkt.DestinationChannel), o.PH.RevisionHeight)
 		msg = chantypes.NewMsgTimeout(pkt, nsr, bz, o.PH, signer)
-		delete(w.pend, o.Port+"/"+o.Chan)
+		delete(w.pend, pendKey(c, o.Port, o.Chan))
 	case "conn_init":
 		msg = &conntypes.MsgConnectionOpenInit{ClientId: o.Client,
 			Counterparty: conntypes.NewCounterparty(o.CpClient, o.CpConn, commitmenttypes.NewMerklePrefix([]byte(o.CpPrefix))),
